@@ -7,7 +7,7 @@ check; exit 2 (cannot analyse the new shape) is acceptable, exit 0 ideal.
 import json, os, shutil, subprocess, sys, tempfile
 from pathlib import Path
 from concurrent.futures import ThreadPoolExecutor
-V = Path('/verif'); T = V / 'twins'
+V = Path(__file__).resolve().parent.parent; T = V / 'twins'
 ALL = [f'C{i:02d}' for i in range(1, 21)]
 
 def sh(cmd):
